@@ -1,7 +1,7 @@
 """C14 - compilation results do not depend on history or on earlier failures (engine H)."""
 from __future__ import annotations
 
-from hist_common import COMPILE_OPS, FMTS, STMT_TWINS, SUB_CALLERS, SUB_CATALOGUE, HistEngine
+from hist_common import COMPILE_OPS, FMTS, MULTI_HYBRID, STMT_TWINS, SUB_CALLERS, SUB_CATALOGUE, WARMUP_BIG, WARMUP_ONE, HistEngine
 from sim import gen_beh, norm
 from sim.core import Chooser, EventLog, Violation, stable_hash
 
@@ -20,6 +20,8 @@ class EngineC14(HistEngine):
         w_stmt = ch.choice([2, 6, 12], "w_stmt")
         w_fresh = ch.choice([0, 2, 4], "w_fresh")
         w_new = ch.choice([0, 1, 2], "w_new")
+        if ch.chance(1, 8, "boundary-history"):
+            return self.boundary_history(ch)
         self._theme = ch.choice(self.theme_keys, "theme") if self.theme_keys and ch.chance(2, 3, "theme?") else None
         self._focus = ch.choice(self.shape_keys, "focus") if ch.chance(1, 4, "focus?") else None
         insts = [fmt0]
@@ -42,7 +44,7 @@ class EngineC14(HistEngine):
                     # a call compiled while the routine is still unknown (rejected), the registration, the call again
                     ops.append({"op": "stmt", "inst": ch.draw(len(insts), "cbinst"), "code": ch.choice(callers, "cb")})
                 ops.append(dict(s, op="add_sub", inst=inst))
-                if callers and s["name"] != "vf_bad" and ch.chance(1, 2, "call-after-registration"):
+                if callers and ch.chance(1, 2, "call-after-registration"):      # (after vf_bad's failed registration the call must stay rejected)
                     subs_after = subs + ([s["name"]] if s["name"] not in subs else [])
                     ops.append({"op": ch.choice(["stmt", "stmt", "fresh"], "caentry"), "inst": ch.draw(len(insts), "cainst"),
                                 "code": ch.choice(callers, "ca"), "fmt": insts[0]})
@@ -105,6 +107,25 @@ class EngineC14(HistEngine):
             if ch.chance(1, 8, "thread"):
                 op["thread"] = True      # the call runs on another (joined) thread of the same process
             ops.append(op)
+        return {"fmt0": fmt0, "ops": ops}
+
+    def boundary_history(self, ch: Chooser):
+        """Directed history: the never-reset temporary counter is placed right below a digit roll-over (9/10, 99/100,
+        999/1000) before behaviours with several temporaries are compiled - wherever generated names are sorted,
+        compared as strings or cut to a width, these are the values that matter."""
+        fmt0 = ch.choice(FMTS, "fmt0")
+        target = ch.choice([9, 99, 999], "boundary") - ch.draw(3, "below")
+        ops = [{"op": "insn", "inst": 0, "name": "warm", "parts": [WARMUP_BIG], "via": "transform_insn"}] * (target // 8)
+        ops += [{"op": "insn", "inst": 0, "name": "warm", "parts": [WARMUP_ONE], "via": "transform_insn"}] * (target % 8)
+        for _ in range(ch.randint(2, 6, "nmulti")):
+            t = ch.choice(MULTI_HYBRID, "multi-hybrid")
+            kind = ch.choice(["stmt", "insn", "fresh"], "bentry")
+            if kind == "stmt":
+                ops.append({"op": "stmt", "inst": 0, "code": t})
+            elif kind == "insn":
+                ops.append({"op": "insn", "inst": 0, "name": "mh_" + stable_hash(t)[:6], "parts": [t], "via": "transform_insn"})
+            else:
+                ops.append({"op": "fresh", "inst": 0, "code": t, "fmt": fmt0})
         return {"fmt0": fmt0, "ops": ops}
 
     # ------------------------------------------------------------------ oracle
